@@ -570,8 +570,9 @@ theorem healthy_of_outcome (cfg : Cfg) (hist : List HEv) (hs : StreamScoped cfg 
     Hypotheses that remain (none about the frame layer: `FrameSim` is discharged by
     `C03_frame_layer_simulation`/`lift_exists` for every script): chunks are non-empty (`ScriptOK`,
     a QUIC read never returns zero bytes); no DATA frame announces `usize::MAX` bytes (`NoRaw`; a
-    varint cannot); the header oracle accepts the two blocks within the limit (as C03's `HdrOk`: in
-    either position); the loop bound of the `body` call is at least the model's own `fsFuel`.
+    varint cannot); the header oracle accepts the head block as a head and the trailer block as
+    trailers, within the limit (positional, as C03's `HdrsOk`: nothing is asked of a block in the
+    other position); the loop bound of the `body` call is at least the model's own `fsFuel`.
     Still inherited from C03's `documented`: within stream `j` itself the deliveries precede the
     polls — `C07_healthy_stream_delivers_polled` removes that. -/
 theorem C07_healthy_stream_delivers (cfg : Cfg) (hist : List HEv) (hs : StreamScoped cfg hist) (j : Nat)
@@ -580,7 +581,7 @@ theorem C07_healthy_stream_delivers (cfg : Cfg) (hist : List HEv) (hs : StreamSc
     (hne : ∀ b ∈ cs, b ≠ [])
     (hmsg : H3.FS.run H3.FS.frameDec (.hdr []) cs.flatten = (.hdr [], msgToks h ds tr))
     (hlen : ∀ d ∈ ds, d.length < H3.FS.USIZE_MAX)
-    (hH : ∀ b, b = h ∨ tr = some b → cfg.hdr.head b = .ok ∧ cfg.hdr.trailer b = .ok)
+    (hh : cfg.hdr.head h = .ok) (hT : ∀ t, tr = some t → cfg.hdr.trailer t = .ok)
     (hfuel : fsFuel ({}, cs.map H3.FS.Ev.chunk ++ [H3.FS.Ev.fin]) ≤ fuel) :
     ∃ rs : List Res,
       obsOf j (run cfg {} hist).2 =
@@ -595,17 +596,16 @@ theorem C07_healthy_stream_delivers (cfg : Cfg) (hist : List HEv) (hs : StreamSc
     (onlyChunks_map cs) (scriptOK_chunks_fin cs hne)
     (by rw [hb]; exact noRaw_of_msgToks _ _ h ds tr hmsg hlen)
     (by
-      intro b hbm
-      rw [hb, hmsg] at hbm
-      obtain ⟨h1, h2⟩ := hH b (headers_mem_msgToks h ds tr b hbm)
-      simp [Hdr.base, h1, h2, HClass.base])
+      rw [hb, hmsg, kindsOf_msgToks]
+      exact hdrsOkK_msgKinds _ h ds tr (by simp [Hdr.base, hh, HClass.base])
+        (fun t ht => by simp [Hdr.base, hT t ht, HClass.base]))
     (by rw [hb, hmsg]) hfuel
   rw [hb, hmsg, kindsOf_msgToks, spec_msgKinds] at hacc
   simp only [H3.Spec.ReqSeq.Expect.accepts, List.mem_singleton] at hacc
   rw [← fsScript_chunks_fin] at hacc
   have hres := healthy_of_outcome cfg hist hs j (cs.map Peer.chunk ++ [Peer.fin]) fuel hj h ds.flatten tr hacc
-    (by rw [(hH h (Or.inl rfl)).1]; simp)
-    (by intro t ht; rw [(hH t (Or.inr ht)).2]; simp)
+    (by rw [hh]; simp)
+    (by intro t ht; rw [hT t ht]; simp)
   simpa using hres
 
 /-- **C07 composed with C03** (`_partial`: kept for the record; superseded by
@@ -642,9 +642,12 @@ theorem C07_healthy_stream_delivers_partial (cfg : Cfg) (hist : List HEv) (hs : 
       ((run cfg {} hist).1.get j).rx.env.rst = none ∧
       (run cfg {} hist).1.cell = none ∧ (run cfg {} hist).1.closed = [] := by
   -- C03: the documented pattern over the chunks is the one over the frames, which delivers
-  have hlift := (C03_lifted_to_chunks fsSrc R sim cfg.role cfg.hdr.base ({}, fsScript ps) toks .fin fuel hR hwf hfuel).1
+  have hwf1 : ∀ tok ∈ toks, TokWF tok := fun t ht => (hwf t ht).1
+  have hlift := (C03_lifted_to_chunks fsSrc R sim cfg.role cfg.hdr.base ({}, fsScript ps) toks .fin fuel hR hwf1
+    (hdrsOk_of_hdrOk _ _ (fun t ht => (hwf t ht).2)) hfuel).1
   have hdel := C03_valid_message_delivered cfg.role cfg.hdr.base pre mid post h tr fuel hpre hmid hpost toks htoks
-    hwf hfuel
+    hwf1 (hwf (.headers h) (by rw [htoks]; simp)).2.1
+    (fun t ht => (hwf (.headers t) (by rw [htoks, ht]; simp)).2.2) hfuel
   rw [← hlift] at hdel
   have hdel' : observe (documented cfg.role fsSrc cfg.hdr.base fuel { src := ({}, fsScript ps) }) =
       { calls := [.head h, .body (payloads mid), .bodyEnd, trObs tr]
@@ -1073,11 +1076,7 @@ example : ∃ rs : List Res,
     (run srv {} (hist₃.take 20)).1.cell = none ∧ (run srv {} (hist₃.take 20)).1.closed = [] :=
   C07_healthy_stream_delivers srv (hist₃.take 20) (by decide +kernel) 0 cs₀ 20 [0xaa, 0xbb] [[], [0xc1, 0xc2]] none
     (by decide +kernel) (by decide) (by decide +kernel) (by decide)
-    (by
-      intro b hb
-      rcases hb with rfl | hb
-      · exact ⟨by decide, by decide⟩
-      · cases hb)
+    (by decide) (by intro t ht; cases ht)
     (by decide)
 
 /-- the same bytes cut per byte on stream 0, with trailers `[0xab]` appended, neighbours as before -/
@@ -1097,13 +1096,7 @@ example : ∃ rs : List Res,
     [[0x01], [0x02], [0xaa], [0xbb], [0x00], [0x02], [0xc1], [0xc2], [0x01], [0x01], [0xab]] 40 [0xaa, 0xbb]
     [[0xc1, 0xc2]] (some [0xab])
     (by decide +kernel) (by decide) (by decide +kernel) (by decide)
-    (by
-      intro b hb
-      rcases hb with rfl | hb
-      · exact ⟨by decide, by decide⟩
-      · simp only [Option.some.injEq] at hb
-        subst hb
-        exact ⟨by decide, by decide⟩)
+    (by decide) (by intro t ht; simp only [Option.some.injEq] at ht; subst ht; decide)
     (by decide)
 example : obsOf 4 (run srv {} hist₄).2 =
     [.quiet, .ans (.res (.head [0xaa, 0xbb])), .quiet, .body [.errReset 7] none] := by decide +kernel
